@@ -51,7 +51,8 @@ def gen_case(rng, tier):
         k = rng.choice([1, 2, 3, 10])
         batches.append(results[i:i + k])
         i += k
-    return {'synthetic': True, 'npaths': npaths, 'defs': defs, 'batches': batches}
+    return {'synthetic': True, 'npaths': npaths, 'defs': defs, 'batches': batches,
+            'alias': rng.choice(['/./', '//']) if npaths >= 2 and rng.random() < 0.15 else None}
 
 
 def gen_real_case(rng, tier, multi):
@@ -115,6 +116,10 @@ def run_synthetic(case):
         paths = []
         for k in range(case['npaths']):
             p = os.path.join(tmpdir, f'f{k}')
+            if k == 1 and case.get('alias'):
+                # a second SPELLING of the first path: to the library another path (its own
+                # catalog entry, its own source id, its own list of results)
+                p = tmpdir + case['alias'] + 'f0'
             with open(p, 'w') as f:
                 f.write('x\n')
             paths.append(p)
